@@ -516,7 +516,7 @@ pub fn run(ctx: &RunCtx) -> i32 {
     // (a)
     let codes: Vec<String> = ERROR_TABLE.iter().map(|(c, _)| (*c).to_owned()).chain(["VerifCustomCode".to_owned(), "X".to_owned(), "Custom.With.Dots".to_owned()]).collect();
     let codes_ref = &codes;
-    let reps = ctx.tier.sz(4, 200);
+    let reps = ctx.tier.sz(16, 1600);
     let mut total = par_run(ctx.workers, codes.len() as u64, |j, r| {
         let rt = new_runtime();
         let mut g = Rng::new(derive_seed(ctx.seed, "C04/render", j));
@@ -542,6 +542,9 @@ pub fn run(ctx: &RunCtx) -> i32 {
             }
             let via = ["backend/get-object", "backend/put-object", "backend/get-bucket-location", "backend/head-bucket"][(i % 4) as usize];
             let case = ECase { code: code.clone(), message, request_id, status_override, headers, via: via.into() };
+            if sample_skip() {
+                continue;
+            }
             judge_render(&rt, r, &case);
             r.sample("render", || json!({"case": case}));
         }
@@ -569,7 +572,7 @@ pub fn run(ctx: &RunCtx) -> i32 {
         }
     }
     let corpus_ref = &corpus;
-    let n = ctx.tier.sz(600_000, 12_000_000);
+    let n = ctx.tier.sz(3_000_000, 80_000_000);
     let per = 1000u64;
     let tot = par_run(ctx.workers, n.div_ceil(per), |j, r| {
         let rt = new_runtime();
@@ -588,6 +591,9 @@ pub fn run(ctx: &RunCtx) -> i32 {
                 }
             };
             let case = TCase { req, operator, cfg_bits: (g.below(16)) as u8, secrets: secrets.clone() };
+            if sample_skip() {
+                continue;
+            }
             judge_total(&rt, r, &case);
         }
     });
